@@ -14,5 +14,7 @@ def power(a, b):
     try:
         return math.pow(a, b)
     except OverflowError:
-        negative = a < 0 and float(b).is_integer() and int(b) % 2 == 1
+        # (an operand that is itself beyond the floats is not a saturating result: float() raises again)
+        a, b = float(a), float(b)
+        negative = a < 0 and b.is_integer() and int(b) % 2 == 1
         return -float('inf') if negative else float('inf')
